@@ -592,8 +592,12 @@ def run_ops(ctx, out, world: World, lst, origin: dict, label: str, state: str, r
         for k in probe:
             for kind in ("getstr", "get"):
                 try:
-                    v = lst[k] if kind == "getstr" else lst.get(k)
-                    iv = {"v": None if (kind == "get" and v is None) else world.enc(v)}
+                    # `get` with a private default: a stored value of None (e.g. an attribute without value) must not be
+                    # mistaken for "no such key"
+                    v = lst[k] if kind == "getstr" else lst.get(k, _NO_SUCH_KEY)
+                    iv = {"v": None if v is _NO_SUCH_KEY else world.enc(v)}
+                    if kind == "get" and (lst.get(k) is None) != (v is _NO_SUCH_KEY or v is None):
+                        bad("mapping|get-default", f"get({k!r}) without default disagrees with get({k!r}, default)")
                 except Unsupported:
                     continue
                 except Exception as e:  # noqa: BLE001
@@ -616,6 +620,9 @@ def run_ops(ctx, out, world: World, lst, origin: dict, label: str, state: str, r
     if mv:
         req["mapvalue"] = mv.split(".")
     return {"req": req, "impl": impl, "rep": rep}
+
+
+_NO_SUCH_KEY = object()
 
 
 def common_sha(obj) -> str:
